@@ -106,10 +106,16 @@ class IdealContext:
         raise SealError("signature verification failed")
 
 
-def provider(ctx, authn=_pdu.SecurityProvider.RPC_C_AUTHN_GSS_NEGOTIATE):
-    """the repository's AuthenticationProvider on top of the ideal context (its __init__ would open a real spnego client)"""
-    p = _auth.AuthenticationProvider.__new__(_auth.AuthenticationProvider)
-    p.ctx = ctx
-    p.provider = authn
-    p._header_length = 0
-    return p
+def provider(ctx, c=None, extra_stubs=()):
+    """the repository's AuthenticationProvider on top of the ideal context: its own __init__ runs with spnego.client replaced, so that
+    attributes a later version adds are initialised the way the code initialises them.  Installs the harness's stubs (once per run)."""
+    import spnego
+
+    c = c or ctx.c
+
+    def client(*a, **k):
+        ctx.client_args = (a, k)
+        return ctx
+
+    c.stubs([(spnego.client, client)] + list(extra_stubs))
+    return c.call(_auth.AuthenticationProvider, "user", "password", "dc01.domain.test", "negotiate")
